@@ -1,15 +1,23 @@
 ------------------------- MODULE TransportLifeTrace -------------------------
-(* Trace validation of the real PortTransport's connection phase (FakeSerial, virtual time) against
-   TransportLife.  One item = one schedule:  [maxtrys, sending, ev |-> << [e, k] ... >>]
+(* Trace validation of the real PortTransport's connection phase and life cycle (FakeSerial, virtual time; the real
+   PortProtocol with its QoS context, as a Gateway uses it) against TransportLife.
+   One item = one schedule:  [maxtrys, sending, ev |-> << [e, k, mro] ... >>]
      e = "sig"   a signature frame reached serial.write            (k = "")
          "rx"    the harness fed one line to the reader            (k = kind: sigecho | foreignsig | other)
-         "pkt"   protocol.pkt_received ran                         (k = kind)
+         "pkt"   protocol.pkt_received was entered                 (k = kind)
          "made"  protocol.connection_made ran                      (k = "gwy" | "none" | "foreign" | other id text)
+         "close" the transport was closed / its port died          (k = "close" | "die")          -- TransportLife!Lose
+         "lost"  protocol.connection_lost ran                      (k = "")
+         "open"  the same protocol was handed to a new transport   (k = "")                       -- TransportLife!Reopen
+         "exc"   an exception left protocol.pkt_received or PortTransport._read_ready - into the event loop's
+                 exception handler                                 (k = Type@module.function, mro = class names)
          "end"   quiescence, 3 s after the last step               (k = what the transport reports as active gateway)
    The fold is total: a step the model does not allow records its clause once and the shadow state
    still advances as far as it can.
-   Clauses: "b:*" are property-level (C01b/c: a packet the reader produced is delivered, once, in order,
-   whatever the connection phase); everything else is drift between the model and the code.           *)
+   Clauses: "b:*" and "a2:*" are property-level (C01b/c: a packet the reader produced is delivered, once, in order,
+   whatever the connection phase;  C01a2: no exception other than the invalid-packet / value error escapes the receive
+   path, whatever the connection phase - never connected, connected, lost, re-connecting); everything else is drift
+   between the model and the code.                                                                                *)
 EXTENDS Naturals, Sequences, TLC, Json, IOUtils
 
 Traces == JsonDeserialize(IOEnv.TRACE_FILE)
@@ -17,22 +25,36 @@ Traces == JsonDeserialize(IOEnv.TRACE_FILE)
 VARIABLES tid, l, s, fail
 vars == <<tid, l, s, fail>>
 
-S0 == [sent |-> 0, initFut |-> "pend", hgi |-> "none", made |-> <<>>, queue |-> <<>>, connected |-> FALSE]
+S0 == [sent |-> 0, initFut |-> "pend", hgi |-> "none", made |-> <<>>, queue |-> <<>>, connected |-> FALSE,
+       closed |-> FALSE, ctx |-> "Inactive", epoch |-> 1]
+
+AllowedNames == {"ramses_tx.exceptions.PacketInvalid", "builtins.ValueError"}
+Allowed(mro) == \E i \in 1..Len(mro) : mro[i] \in AllowedNames
 
 Add(f, line, cls) == IF cls = "" \/ \E i \in 1..Len(f) : f[i][2] = cls THEN f ELSE Append(f, <<line, cls>>)
 
 ClauseOf(t, st, e) ==
-  CASE e.e = "sig"  -> IF st.connected THEN "drift:signature_after_connection"
+  CASE e.e = "sig"  -> IF st.closed THEN "drift:signature_after_close"
+                       ELSE IF st.connected THEN "drift:signature_after_connection"
                        ELSE IF t.sending = 0 THEN "drift:signature_although_sending_disabled"
                        ELSE IF st.sent >= t.maxtrys THEN "drift:signature_over_budget"
                        ELSE IF st.initFut = "echo" /\ st.sent > 0 THEN "drift:signature_after_echo_and_sleep"
                        ELSE ""
+    [] e.e = "rx"   -> IF st.closed THEN "harness:rx_on_a_closed_transport" ELSE ""
     [] e.e = "pkt"  -> IF st.queue = <<>> THEN "b:port:delivered_twice_or_unknown"
                        ELSE IF Head(st.queue) # e.k THEN "b:port:delivery_order"
                        ELSE ""
     [] e.e = "made" -> IF st.made # <<>> THEN "drift:connection_made_twice"
                        ELSE IF e.k # (IF st.initFut = "echo" THEN "gwy" ELSE "none") THEN "drift:connected_with_wrong_id"
                        ELSE ""
+    [] e.e = "close" -> IF st.closed \/ Len(st.made) # 1 THEN "harness:close_out_of_discipline" ELSE ""
+    [] e.e = "lost" -> IF ~st.closed THEN "drift:connection_lost_without_close"
+                       ELSE IF st.ctx = "Inactive" THEN "drift:connection_lost_twice"
+                       ELSE ""
+    [] e.e = "open" -> IF ~st.closed \/ st.ctx # "Inactive" THEN "harness:open_out_of_discipline"
+                       ELSE IF st.queue # <<>> THEN "b:port:packet_not_delivered"
+                       ELSE ""
+    [] e.e = "exc"  -> IF Allowed(e.mro) THEN "" ELSE "a2:" \o e.k \o ":port"
     [] e.e = "end"  -> IF st.queue # <<>> THEN "b:port:packet_not_delivered"
                        ELSE IF Len(st.made) # 1 THEN "drift:never_connected"
                        ELSE IF e.k # st.made[1] THEN "drift:reported_id_differs"
@@ -46,8 +68,11 @@ Upd(t, st, e) ==
                                   !.hgi = IF st.initFut = "pend" /\ e.k = "sigecho" /\ st.sent > 0 THEN "gwy" ELSE @]
     [] e.e = "pkt"  -> [st EXCEPT !.queue = IF @ = <<>> THEN @ ELSE IF Head(@) = e.k THEN Tail(@)
                                             ELSE SelectSeq(@, LAMBDA x : x # e.k)]   \* resynchronise after a reorder
-    [] e.e = "made" -> [st EXCEPT !.made = Append(@, e.k), !.connected = TRUE,
+    [] e.e = "made" -> [st EXCEPT !.made = Append(@, e.k), !.connected = TRUE, !.ctx = "Idle",
                                   !.initFut = IF @ = "pend" THEN "none" ELSE @]
+    [] e.e = "close" -> [st EXCEPT !.closed = TRUE]
+    [] e.e = "lost" -> [st EXCEPT !.ctx = "Inactive"]
+    [] e.e = "open" -> [S0 EXCEPT !.epoch = st.epoch + 1, !.queue = st.queue]
     [] OTHER -> st
 
 Init == tid \in 1..Len(Traces) /\ l = 1 /\ s = S0 /\ fail = <<>>
